@@ -212,6 +212,12 @@ def check(index, ctx):
 
     cd = covering("_check_dict")
     cp = covering("_check_all_pairs")
+    # the per-pair loop may be written in __init__ itself: `for key, value in <mapping>.items(): self._check_key_value_pair(key, value)` without early exit
+    for n_ in c.nodes:
+        a_ = n_.ast
+        if isinstance(a_, ast.For) and "items" in norm_text(a_.iter) and not any(isinstance(x, (ast.Break, ast.Return, ast.Continue)) for x in ast.walk(a_)) \
+                and any(isinstance(x, ast.Call) and isinstance(x.func, ast.Attribute) and x.func.attr == "_check_key_value_pair" for x in ast.walk(a_)):
+            cp = list(cp) + [n_]
     ok = bool(sup) and all(any(c.dominates(x, s) for x in cd) and any(c.dominates(x, s) for x in cp) for s in sup)
     ctx.require(ok, "R6", "TensorDict.__init__: checks dominate the store", "_check_dict and _check_all_pairs run on every path before super().__init__",
                 "a path reaches super().__init__(...) without running _check_dict / _check_all_pairs: a dictionary can exist with values whose shapes contradict its type", ini[1].loc())
@@ -236,6 +242,13 @@ def check(index, ctx):
             raise AnalysisError(f"anchor vanished: {cname}")
         for h in hooks:
             f = cls.methods.get(h)
+            if f is None and h in cls.class_attrs:
+                # `_check_dict = staticmethod(_some_module_function)` / `_check_dict = _some_module_function`
+                e_ = cls.class_attrs[h]
+                if isinstance(e_, ast.Call) and norm_text(e_.func) in ("staticmethod", "classmethod") and e_.args:
+                    e_ = e_.args[0]
+                if isinstance(e_, ast.Name) and e_.id in cls.module.functions:
+                    f = cls.module.functions[e_.id]
             okh = False
             if f is not None:
                 # the hook (or the helpers it calls in the same module) raises ValueError under a comparison
